@@ -45,6 +45,7 @@ def gen_params(rng):
         "n_chrom": rng.choice([1, 1, 2]),
         "chrom_len": rng.choice([2000, 4000]),
         "n_var": rng.randint(6, 30),
+        "pos1_prob": 0.15,
         "kinds": rng.choice([["snv"], ["snv", "snv", "ins", "del"]]),
         "samples": samples,
         "pedigree": ped,
